@@ -586,6 +586,7 @@ type LoopSpec struct {
 	Decreases   *Clause
 	Modifies    []AssignLoc
 	HasModifies bool
+	EntryOnly   []Clause // checked when the loop is entered; neither assumed nor required to be preserved
 }
 
 type AssignLoc struct {
@@ -623,6 +624,8 @@ type FuncContract struct {
 	Sig        string
 	NoPanic    bool
 	FrameOnly  bool
+	SyncPreserves []AssignLoc // at channel operations everything but these locations may change
+	HasSync       bool
 }
 
 type SpecFunc struct {
@@ -664,7 +667,7 @@ type SpecFile struct {
 var directiveKw = map[string]bool{
 	"func": true, "extern": true, "interface": true, "functype": true, "requires": true, "ensures": true, "assigns": true, "reads": true,
 	"loop": true, "pure": true, "trusted": true, "spec": true, "pred": true, "uninterp": true, "ghost": true,
-	"lemma": true, "axiom": true, "props": true, "nopanic": true, "exclude": true, "frameonly": true,
+	"lemma": true, "axiom": true, "props": true, "nopanic": true, "exclude": true, "frameonly": true, "sync": true,
 }
 
 func parseSpecFile(path string, pkgName string) (*SpecFile, error) {
@@ -922,12 +925,14 @@ func parseSpecFile(path string, pkgName string) (*SpecFile, error) {
 			}
 			cl := Clause{label, e, d.line, d.text}
 			switch what {
+			case "entry":
+				ls.EntryOnly = append(ls.EntryOnly, cl)
 			case "invariant":
 				ls.Invariants = append(ls.Invariants, cl)
 			case "decreases":
 				ls.Decreases = &cl
 			default:
-				return nil, p.errf("loop: expected invariant or decreases")
+				return nil, p.errf("loop: expected invariant, entry, modifies or decreases")
 			}
 		case "pure":
 			if cur == nil {
@@ -937,6 +942,34 @@ func parseSpecFile(path string, pkgName string) (*SpecFile, error) {
 			sf.RawText = append(sf.RawText, fmt.Sprintf("%s:%d pure %s", path, d.line, cur.Key))
 		case "nopanic":
 			cur.NoPanic = true
+		case "sync":
+			// sync preserves loc, ... : every channel operation is a synchronisation point at which other goroutines may
+			// have changed any heap cell except the listed ones (an assumption about the other goroutines, listed in the evidence)
+			if cur == nil {
+				return nil, p.errf("sync outside func")
+			}
+			if !p.isId("preserves") {
+				return nil, p.errf("sync: expected 'preserves'")
+			}
+			p.p++
+			cur.HasSync = true
+			for p.peek().k != "eof" {
+				start := p.p
+				e, err := p.parseAssignLoc()
+				if err != nil {
+					return nil, err
+				}
+				var txt []string
+				for _, t := range p.toks[start:p.p] {
+					txt = append(txt, t.v)
+				}
+				e.Text = strings.Join(txt, "")
+				cur.SyncPreserves = append(cur.SyncPreserves, e)
+				if p.isOp(",") {
+					p.p++
+				}
+			}
+			sf.RawText = append(sf.RawText, fmt.Sprintf("%s:%d sync preserves (%s): other goroutines are assumed not to write the listed locations", path, d.line, cur.Key))
 		case "frameonly":
 			// only frame / reads / postcondition obligations are generated; run-time panics and callee
 			// preconditions are assumed not to occur (listed as an assumption in the evidence)
